@@ -84,8 +84,14 @@ Consume(s) == /\ tpc[s] = "consume"
                  ELSE tpc' = [tpc EXCEPT ![s] = "keepcheck"] /\ UNCHANGED <<head, delivered>>
               /\ UNCHANGED <<resv, pub, ppc, preg, notified, waker, keep, accepted, rejected, cpc>>
 KeepCheck(s) == /\ tpc[s] = "keepcheck"
-                /\ tpc' = [tpc EXCEPT ![s] = IF keep[s] THEN "register" ELSE "ended"]
+                /\ tpc' = [tpc EXCEPT ![s] = IF keep[s] THEN "register" ELSE "lastlook"]
                 /\ UNCHANGED <<head, resv, pub, ppc, preg, notified, waker, keep, accepted, rejected, delivered, cpc>>
+\* told to end: the stream consumes once more (an event may have been sent since its empty consume) and ends only if nothing is there
+LastLook(s) == /\ tpc[s] = "lastlook"
+               /\ IF pub > head
+                  THEN head' = head + 1 /\ delivered' = delivered + 1 /\ tpc' = [tpc EXCEPT ![s] = "consume"]
+                  ELSE tpc' = [tpc EXCEPT ![s] = "ended"] /\ UNCHANGED <<head, delivered>>
+               /\ UNCHANGED <<resv, pub, ppc, preg, notified, waker, keep, accepted, rejected, cpc>>
 Register(s) == /\ tpc[s] = "register"
                /\ IF waker[s] THEN UNCHANGED <<waker, notified>>
                   ELSE waker' = [waker EXCEPT ![s] = TRUE] /\ notified' = [notified EXCEPT ![s] = TRUE]     \* first registration: self-wake
@@ -103,7 +109,7 @@ Quiescent == ProdsDone /\ NothingRuns /\ cpc \notin Streams
 Stutter == Quiescent /\ UNCHANGED vars
 
 Next == (\E p \in Prods : Reserve(p) \/ Publish(p) \/ WakeDecision(p))
-        \/ (\E s \in Streams : PollStart(s) \/ Consume(s) \/ KeepCheck(s) \/ Register(s))
+        \/ (\E s \in Streams : PollStart(s) \/ Consume(s) \/ KeepCheck(s) \/ LastLook(s) \/ Register(s))
         \/ CancelStep \/ Stutter
 
 Cancelled == cpc = MaxS
